@@ -629,6 +629,16 @@ func sameSnap(id string, a, b snapshot) {
 // C12 feeds k inputs to one long-lived parser (Buffer, Reset, Parse, Execute, print) and
 // compares each step with a fresh parser given that input alone.
 func C12(g *ref.Grammar, mk func() Parser, hasActions bool, size int, lens []int, same bool, nsw int) {
+	c12(g, mk, hasActions, size, lens, same, nsw, true)
+}
+
+// C12NoMemo: the same histories on a parser with memoisation disabled (state that only the memo
+// table happens to reset must be reset without it too).
+func C12NoMemo(g *ref.Grammar, mk func() Parser, hasActions bool, lens []int, nsw int) {
+	c12(g, mk, hasActions, -1, lens, false, nsw, false)
+}
+
+func c12(g *ref.Grammar, mk func() Parser, hasActions bool, size int, lens []int, same bool, nsw int, memo bool) {
 	var reused Parser
 	ins := make([]*Input, len(lens))
 	for i, n := range lens {
@@ -641,7 +651,7 @@ func C12(g *ref.Grammar, mk func() Parser, hasActions bool, size int, lens []int
 	}
 	for i, in := range ins {
 		if i == 0 {
-			reused = start(mk, in, true, size)
+			reused = start(mk, in, memo, size)
 		} else {
 			for j, v := range in.Sw {
 				reused.SetSw(j, v)
@@ -649,7 +659,7 @@ func C12(g *ref.Grammar, mk func() Parser, hasActions bool, size int, lens []int
 			reused.Reset(in.S)
 		}
 		got := snap(reused, hasActions)
-		fresh := start(mk, in, true, -1)
+		fresh := start(mk, in, memo, -1)
 		want := snap(fresh, hasActions)
 		rt.ObserveBool("ok", got.ok)
 		sameSnap("step"+string(rune('0'+i)), got, want)
